@@ -87,6 +87,7 @@ type Exec struct {
 	internalN   int
 	frozenOn    bool
 	frozenHits  []frozenHit
+	sharedFrom  int
 	held        []*Cell // mutex cells currently held (sequential lockset)
 	accesses    []access
 	sched       *Sched
@@ -314,6 +315,7 @@ func (ex *Exec) runPath(fn *ssa.Function, prefix []int) (res *PathResult, pendin
 	ex.events, ex.ces, ex.known = nil, nil, nil
 	ex.pathInstr, ex.ordersUsed, ex.allMapOrders, ex.internalN = 0, false, false, 0
 	ex.frozenOn, ex.frozenHits, ex.held, ex.accesses = false, nil, nil, nil
+	ex.sharedFrom = 0
 	ex.sched = nil
 	for _, k := range ex.pathNatives {
 		delete(ex.natives, k)
